@@ -22,16 +22,31 @@ pub struct RunResult {
 }
 
 pub fn build_store(cfg: &RunCfg) -> Result<Store, String> {
+    build_inputs(cfg).map(|x| x.0)
+}
+
+pub fn build_inputs(cfg: &RunCfg) -> Result<(Store, Vec<crate::refgen::Truth>), String> {
     let mut rng = crate::rng::Rng::new(cfg.dev_seed ^ 0xBA11A57);
     match cfg.vol.source {
         VolSource::Format => {
             let mut s = crate::vol::format_store(&cfg.vol)?;
             crate::vol::dress(&mut s, &cfg.vol, &mut rng)?;
-            Ok(s)
+            Ok((s, vec![]))
         }
         VolSource::Refgen(seed) => {
             let built = crate::refgen::build(&cfg.vol, seed)?;
-            Ok(built.store)
+            // the builder's own output must be clean under the independent checker (harness self-check)
+            let p = refdec::parse(&built.store)?;
+            if let Some(f) = p.findings.first() {
+                return Err(format!("refgen image not fsck-clean: {} {}", f.kind, f.detail));
+            }
+            let mut s = built.store;
+            if let Some(keep) = cfg.vol.ballast_keep {
+                let mut v2 = cfg.vol.clone();
+                v2.ballast_keep = Some(keep);
+                crate::vol::ballast_only(&mut s, &v2, &mut rng)?;
+            }
+            Ok((s, built.truth))
         }
     }
 }
@@ -39,6 +54,7 @@ pub fn build_store(cfg: &RunCfg) -> Result<Store, String> {
 impl World {
     pub fn new(cfg: RunCfg, store: Store, prop: &str) -> Result<World, String> {
         let geo = refdec::geo(&store)?;
+        refdec::set_oem(cfg.oem == Oem::Cp437);
         let clock = SimClock::new(cfg.start);
         clock.set(cfg.start);
         let mut ds = DiskState::new(store);
@@ -113,7 +129,7 @@ pub fn view(s: &Session) -> HandleView {
 
 /// Build the volume described by `cfg`, run steps from `src` until it is exhausted or a violation is found.
 pub fn run(cfg: RunCfg, prop: &str, src: &mut dyn StepSource, max_steps: usize) -> RunResult {
-    let store = match build_store(&cfg) {
+    let (store, truth) = match build_inputs(&cfg) {
         Ok(s) => s,
         Err(e) => {
             return RunResult {
@@ -127,12 +143,22 @@ pub fn run(cfg: RunCfg, prop: &str, src: &mut dyn StepSource, max_steps: usize) 
             }
         }
     };
-    run_on(cfg, store, prop, src, max_steps)
+    run_on_with(cfg, store, truth, prop, src, max_steps)
 }
 
 pub fn run_on(cfg: RunCfg, store: Store, prop: &str, src: &mut dyn StepSource, max_steps: usize) -> RunResult {
+    run_on_with(cfg, store, vec![], prop, src, max_steps)
+}
+
+pub fn run_on_with(cfg: RunCfg, store: Store, truth: Vec<crate::refgen::Truth>, prop: &str, src: &mut dyn StepSource, max_steps: usize) -> RunResult {
     let mut w = match World::new(cfg, store, prop) {
-        Ok(w) => w,
+        Ok(mut w) => {
+            if !truth.is_empty() {
+                let occ = SimOcc(w.cfg.oem);
+                w.model.load_truth(&truth, occ);
+            }
+            w
+        }
         Err(e) => {
             return RunResult {
                 crash: CrashLog::default(),
